@@ -89,8 +89,65 @@ fn pan_in_scope(p: &Pan) -> bool {
     p.file.contains("neumann_parser/") || p.file.contains("query_router/")
 }
 
+/// panic message without the parts that quote the input (slice errors embed the whole string)
+fn panic_class(msg: &str) -> String {
+    let l = msg.lines().next().unwrap_or("");
+    let mut cut = l.len();
+    for pat in [" of `", " when slicing `", "; it is inside", " (bytes "] {
+        if let Some(p) = l.find(pat) {
+            cut = cut.min(p);
+        }
+    }
+    first_line(&l[..cut])
+}
+
 fn pan_signature(entry: &str, p: &Pan) -> String {
-    format!("panic:{}:{}:{}", entry, rel_file(&p.file), first_line(&p.msg))
+    format!("panic:{}:{}:{}", entry, rel_file(&p.file), panic_class(&p.msg))
+}
+
+/// first word of a command, upper-cased, if it is one the legacy `execute` handles by string splitting
+fn legacy_keyword(text: &str) -> Option<&'static str> {
+    let first = text.split_whitespace().next().unwrap_or("").to_uppercase();
+    LEGACY_KEYWORDS.iter().copied().find(|k| *k == first)
+}
+
+// ------------------------------------------------------------------------------------------------
+// violation bookkeeping: every distinct signature keeps at least one witness (the driver matches
+// known findings on the exact signature, so a frequent known one must never crowd out a new one)
+// ------------------------------------------------------------------------------------------------
+
+static IS_CHILD: std::sync::atomic::AtomicBool = std::sync::atomic::AtomicBool::new(false);
+static COLLECT: std::sync::Mutex<BTreeMap<String, Vec<common::Violation>>> = std::sync::Mutex::new(BTreeMap::new());
+const WITNESSES_PER_SIGNATURE: usize = 2;
+
+fn viol(rep: &mut Report, signature: impl Into<String>, detail: impl Into<String>, replay: J) {
+    let signature = signature.into();
+    rep.violations_total += 1;
+    rep.count(&format!("violations_by_signature[{}]", signature), 1);
+    let v = common::Violation { signature: signature.clone(), detail: detail.into(), replay };
+    if IS_CHILD.load(std::sync::atomic::Ordering::Relaxed) {
+        // child report: one witness per signature, handed to the parent as JSON
+        if !rep.violations.iter().any(|x| x.signature == signature) && rep.violations.len() < 400 {
+            rep.violations.push(v);
+        }
+    } else {
+        let mut c = COLLECT.lock().unwrap_or_else(|e| e.into_inner());
+        let e = c.entry(signature).or_default();
+        if e.len() < WITNESSES_PER_SIGNATURE {
+            e.push(v);
+        }
+    }
+}
+
+/// move the witnesses of a child's report into the collector (totals stay in the report)
+fn absorb(r: &mut Report) {
+    let mut c = COLLECT.lock().unwrap_or_else(|e| e.into_inner());
+    for v in r.violations.drain(..) {
+        let e = c.entry(v.signature.clone()).or_default();
+        if e.len() < WITNESSES_PER_SIGNATURE {
+            e.push(v);
+        }
+    }
 }
 
 fn errkind_name(k: &ParseErrorKind) -> String {
@@ -688,7 +745,7 @@ fn check_tree(t: &T, st: &Style, ctxs: &[PCtx], rep: &mut Report, replay: J) -> 
             let res = match guard(|| parse_in_ctx(ctx, &full)) {
                 Ok(r) => r,
                 Err(p) => {
-                    rep.violation(pan_signature(if ctx == PCtx::ExprRs { "parse_expr" } else { "parse" }, &p), format!("panic at {}:{}: {} on {:?}", p.file, p.line, p.msg, trunc(&full, 400)), replay.clone());
+                    viol(rep, pan_signature(if ctx == PCtx::ExprRs { "parse_expr" } else { "parse" }, &p), format!("panic at {}:{}: {} on {:?}", p.file, p.line, p.msg, trunc(&full, 400)), replay.clone());
                     ok = false;
                     continue;
                 }
@@ -698,7 +755,7 @@ fn check_tree(t: &T, st: &Style, ctxs: &[PCtx], rep: &mut Report, replay: J) -> 
                 PRes::Tree(got) => {
                     if &got != t {
                         let (e, g) = first_diff(t, &got);
-                        rep.violation(
+                        viol(rep, 
                             format!("precedence:{}:{}:expected-{}-got-{}", ctx.parser(), mname, e, g),
                             format!("{} print {:?} ({:?}) parses to a different tree: expected {:?}, got {:?}", mname, trunc(&full, 600), ctx, t, got),
                             replay.clone(),
@@ -711,7 +768,7 @@ fn check_tree(t: &T, st: &Style, ctxs: &[PCtx], rep: &mut Report, replay: J) -> 
                         // the documented nesting limit of expr.rs; not a regrouping
                         rep.count("tree_too_deep_skipped", 1);
                     } else {
-                        rep.violation(
+                        viol(rep, 
                             format!("precedence:{}:{}:parse-error:{}", ctx.parser(), mname, errkind_name(&e.kind)),
                             format!("{} print {:?} ({:?}) of tree {:?} is rejected: {}", mname, trunc(&full, 600), ctx, t, e),
                             replay.clone(),
@@ -720,7 +777,7 @@ fn check_tree(t: &T, st: &Style, ctxs: &[PCtx], rep: &mut Report, replay: J) -> 
                     }
                 }
                 PRes::Shape(s) => {
-                    rep.violation(
+                    viol(rep, 
                         format!("precedence:{}:{}:expression-split-across-clauses", ctx.parser(), mname),
                         format!("{} print {:?} ({:?}) of tree {:?}: {}", mname, trunc(&full, 600), ctx, t, s),
                         replay.clone(),
@@ -1301,7 +1358,7 @@ impl Judge {
             _ => false,
         };
         if !same && record {
-            self.report.violation(
+            viol(&mut self.report, 
                 format!("determinism:{}", entry),
                 format!("two calls of {} on the same text differ: {} vs {} (input {:?})", entry, trunc(&format!("{:?}", a), 300), trunc(&format!("{:?}", b), 300), trunc(s, 300)),
                 replay.clone(),
@@ -1310,7 +1367,7 @@ impl Judge {
         if let Err(e) = &a {
             self.report.count("error_spans_checked", 1);
             if !span_inside(e.span, s.len()) && record {
-                self.report.violation(
+                viol(&mut self.report, 
                     format!("span-outside-input:{}:{}", entry, errkind_name(&e.kind)),
                     format!("{} error {} has span {}..{} but the input has {} bytes (input {:?})", entry, e.kind, e.span.start.0, e.span.end.0, s.len(), trunc(s, 300)),
                     replay.clone(),
@@ -1329,7 +1386,11 @@ impl Judge {
             return;
         }
         if pan_in_scope(p) {
-            self.report.violation(pan_signature(entry, p), format!("{} panicked at {}:{}: {} (input {:?})", entry, p.file, p.line, p.msg, trunc(s, 400)), replay.clone());
+            let e = match (entry, legacy_keyword(s)) {
+                ("execute", Some(k)) => format!("execute[{}]", k),
+                _ => entry.to_string(),
+            };
+            viol(&mut self.report, pan_signature(&e, p), format!("{} panicked at {}:{}: {} (input {:?})", entry, p.file, p.line, p.msg, trunc(s, 400)), replay.clone());
         } else {
             // a panic below the router (engine code) on a statement that parsed: not a statement about
             // query text; kept visible as a counter + sample
@@ -1351,8 +1412,7 @@ impl Judge {
             }
             if ei >= 4 {
                 // router entries only where execution stays inside the engines
-                let first = text.split_whitespace().next().unwrap_or("").to_uppercase();
-                let ok = safe || (ei == 5 && LEGACY_KEYWORDS.contains(&first.as_str()));
+                let ok = safe || (ei == 5 && legacy_keyword(text).is_some());
                 if !ok {
                     self.report.count(&format!("router_skipped_unsafe[{}]", entry), 1);
                     continue;
@@ -1375,14 +1435,14 @@ impl Judge {
                     self.report.count("tokens_seen", toks.len() as u64);
                     let bad = toks.iter().find(|t| !span_inside(t.span, s.len()));
                     if let (Some(t), true) = (bad, record) {
-                        self.report.violation(
+                        viol(&mut self.report, 
                             "span-outside-input:tokenize".to_string(),
                             format!("token {:?} has span {}..{} but the input has {} bytes (input {:?})", t.kind, t.span.start.0, t.span.end.0, s.len(), trunc(&s, 300)),
                             replay.clone(),
                         );
                     }
                     if toks.last().map(|t| !t.is_eof()).unwrap_or(true) && record {
-                        self.report.violation("tokenize:no-eof-token".to_string(), format!("token stream does not end with Eof (input {:?})", trunc(&s, 300)), replay.clone());
+                        viol(&mut self.report, "tokenize:no-eof-token".to_string(), format!("token stream does not end with Eof (input {:?})", trunc(&s, 300)), replay.clone());
                     }
                 }
                 Out::Expr(Ok(pair)) => {
@@ -1443,6 +1503,7 @@ fn flush_report(path: &Path, r: &Report) {
 }
 
 fn child_main(args: Args) {
+    IS_CHILD.store(true, std::sync::atomic::Ordering::Relaxed);
     install_panic_hook();
     let h = std::thread::Builder::new()
         .name("c15-judge".into())
@@ -1495,6 +1556,11 @@ fn child_judge(args: &Args) {
             j.input(0, "nest", &stmt, bare.as_deref(), true, &replay);
             j.report.count(&format!("nest_survived[{}]", class), 1);
             j.report.count_max(&format!("max:nest_depth_survived[{}]", class), depth as u64);
+        }
+        "text" => {
+            let text = std::fs::read_to_string(args.extra.get("text-file").expect("--text-file")).expect("text file");
+            let replay = json!({"part": "text", "text": text});
+            j.input(0, "text", &text, None, true, &replay);
         }
         other => panic!("unknown child mode {:?}", other),
     }
@@ -1611,7 +1677,8 @@ fn fuzz_batch(dir: &Path, tag: &str, batch_seed: u64, from0: u64, count: u64, on
             a.push(("only", o.to_string()));
         }
         let run = run_child(dir, tag, &a, Duration::from_secs(180));
-        if let Some(r) = run.report {
+        if let Some(mut r) = run.report {
+            absorb(&mut r);
             rep.merge(r);
         }
         match run.ended {
@@ -1629,8 +1696,12 @@ fn fuzz_batch(dir: &Path, tag: &str, batch_seed: u64, from0: u64, count: u64, on
                     rep.inconclusive(&format!("allocation failure abort in {} (not judged)", e));
                     rep.sample(json!({"alloc_failure_in": e, "input": trunc(&text, 300), "stderr": trunc(&stderr, 200)}));
                 } else if only.map_or(true, |o| o == idx) {
-                    rep.violation(
-                        format!("{}:{}:fuzz-{}", kind, component(e), class),
+                    let hint = match (e, legacy_keyword(&text)) {
+                        ("execute", Some(k)) => format!("execute[{}]", k),
+                        _ => format!("fuzz-{}", class),
+                    };
+                    viol(rep, 
+                        format!("{}:{}:{}", kind, component(e), hint),
                         format!("child process killed by signal {} in {} on a {}-byte input of class {}: {:?}; stderr: {}", sig, e, text.len(), class, trunc(&text, 400), trunc(stderr.trim(), 200)),
                         json!({"part": "fuzz", "batch_seed": batch_seed, "from": from, "index": idx, "class": class, "text": text}),
                     );
@@ -1655,7 +1726,7 @@ fn fuzz_batch(dir: &Path, tag: &str, batch_seed: u64, from0: u64, count: u64, on
                 let (class, text) = fuzz_input(batch_seed, idx);
                 let e = ENTRIES[entry.min(5)];
                 match again.ended {
-                    Ended::Timeout { .. } => rep.violation(
+                    Ended::Timeout { .. } => viol(rep, 
                         format!("hang:{}:fuzz-{}", component(e), class),
                         format!("{} did not return within 60 s on a {}-byte input: {:?}", e, text.len(), trunc(&text, 400)),
                         json!({"part": "fuzz", "batch_seed": batch_seed, "from": idx, "index": idx, "class": class, "text": text}),
@@ -1677,12 +1748,17 @@ fn nest_run(dir: &Path, tag: &str, class: &str, depth: usize, ctx: usize, rep: &
         let run = run_child(dir, tag, &a, Duration::from_secs(120));
         match run.ended {
             Ended::Clean => {
-                if let Some(r) = run.report {
+                if let Some(mut r) = run.report {
+                    absorb(&mut r);
                     rep.merge(r);
                 }
                 return survived;
             }
             Ended::Signal { sig, stderr, entry, .. } => {
+                if let Some(mut r) = run.report {
+                    absorb(&mut r);
+                    rep.merge(r);
+                }
                 survived = false;
                 let e = ENTRIES[entry.min(5)];
                 let (_, stmt) = nest_case(class, depth, ctx);
@@ -1693,7 +1769,7 @@ fn nest_run(dir: &Path, tag: &str, class: &str, depth: usize, ctx: usize, rep: &
                     rep.inconclusive(&format!("allocation failure abort in {} (not judged)", e));
                     return false;
                 }
-                rep.violation(
+                viol(rep, 
                     format!("{}:{}:nested-{}", kind, component(e), class),
                     format!(
                         "child process killed by signal {} inside {} (2 MiB-stack thread) on {} levels of `{}` nesting, {} bytes: {:?}; stderr: {}",
@@ -1718,12 +1794,56 @@ fn nest_run(dir: &Path, tag: &str, class: &str, depth: usize, ctx: usize, rep: &
                 let e = ENTRIES[entry.min(5)];
                 let (_, stmt) = nest_case(class, depth, ctx);
                 // the nest child handles exactly one input and had 120 s
-                rep.violation(
+                viol(rep, 
                     format!("hang:{}:nested-{}", component(e), class),
                     format!("{} did not return within 120 s on {} levels of `{}` nesting ({} bytes)", e, depth, class, stmt.len()),
                     json!({"part": "nest", "class": class, "depth": depth, "ctx": ctx}),
                 );
                 return false;
+            }
+        }
+    }
+}
+
+/// one literal input (replay of `{"part":"text","text":...}`), all entry points, fresh child
+fn text_run(dir: &Path, text: &str, rep: &mut Report) {
+    let f = dir.join("replay-text.txt");
+    std::fs::write(&f, text).expect("write text");
+    let mut skip = 0usize;
+    loop {
+        let a = vec![("mode", "text".to_string()), ("text-file", f.display().to_string()), ("skip-entries", skip.to_string())];
+        let run = run_child(dir, "text", &a, Duration::from_secs(120));
+        if let Some(mut r) = run.report {
+            absorb(&mut r);
+            rep.merge(r);
+        }
+        match run.ended {
+            Ended::Clean => return,
+            Ended::Signal { sig, stderr, entry, .. } => {
+                let e = ENTRIES[entry.min(5)];
+                let kind = crash_kind(sig, &stderr);
+                let hint = match (e, legacy_keyword(text)) {
+                    ("execute", Some(k)) => format!("execute[{}]", k),
+                    _ => "text".to_string(),
+                };
+                viol(rep, 
+                    format!("{}:{}:{}", kind, component(e), hint),
+                    format!("child process killed by signal {} in {} on {:?}; stderr: {}", sig, e, trunc(text, 400), trunc(stderr.trim(), 200)),
+                    json!({"part": "text", "text": text}),
+                );
+                if entry + 1 >= ENTRIES.len() {
+                    return;
+                }
+                skip = entry + 1;
+            }
+            Ended::Exit { code, stderr } => {
+                rep.inconclusive(&format!("text child exited with code {} (harness error)", code));
+                rep.sample(json!({"child_exit": code, "stderr": trunc(&stderr, 400)}));
+                return;
+            }
+            Ended::Timeout { entry, .. } => {
+                viol(rep, format!("hang:{}:text", component(ENTRIES[entry.min(5)])), format!("no answer within 120 s on {:?}", trunc(text, 400)), json!({"part": "text", "text": text}));
+                return;
             }
         }
     }
@@ -1767,7 +1887,7 @@ fn totality_part(args: &Args, total: &mut Report) {
     });
     total.merge(rep);
     // ---- fuzz batches
-    let n_inputs = args.extra_u64("fuzz-inputs", args.by_tier(160_000, 4_000_000));
+    let n_inputs = args.extra_u64("fuzz-inputs", args.by_tier(400_000, 6_000_000));
     let per = 2_000u64;
     let batches = (n_inputs + per - 1) / per;
     let seed = args.seed;
@@ -2718,7 +2838,7 @@ fn equiv_case(case_seed: u64, rep: &mut Report) {
                 return;
             }
             Err(p) => {
-                rep.violation(pan_signature("parse", &p), ctx(format!("parse panicked at {}:{}: {}", p.file, p.line, p.msg)), replay.clone());
+                viol(rep, pan_signature("parse", &p), ctx(format!("parse panicked at {}:{}: {}", p.file, p.line, p.msg)), replay.clone());
                 return;
             }
         }
@@ -2726,7 +2846,7 @@ fn equiv_case(case_seed: u64, rep: &mut Report) {
             Ok(x) => x.map_err(|e| e.to_string()),
             Err(p) => {
                 if pan_in_scope(&p) {
-                    rep.violation(pan_signature("execute_parsed", &p), ctx(format!("execute_parsed panicked at {}:{}: {}", p.file, p.line, p.msg)), replay.clone());
+                    viol(rep, pan_signature("execute_parsed", &p), ctx(format!("execute_parsed panicked at {}:{}: {}", p.file, p.line, p.msg)), replay.clone());
                 } else {
                     rep.count("panics_below_router_not_judged", 1);
                 }
@@ -2755,7 +2875,7 @@ fn equiv_case(case_seed: u64, rep: &mut Report) {
                     } else {
                         format!("equivalence:result-differs:{}", fam)
                     };
-                    rep.violation(sig, ctx(why), replay.clone());
+                    viol(rep, sig, ctx(why), replay.clone());
                     return;
                 }
                 model_update(&mut m, &op, db);
@@ -2781,7 +2901,7 @@ fn equiv_case(case_seed: u64, rep: &mut Report) {
                     Some(pos) => format!("equivalence:negative-literal-rejected:{}", pos),
                     None => format!("equivalence:text-fails-direct-succeeds:{}", fam),
                 };
-                rep.violation(sig, ctx(format!("the text is rejected with `{}` while the equivalent direct call succeeds with {}", trunc(ea, 300), trunc(&direct_dbg(db), 200))), replay.clone());
+                viol(rep, sig, ctx(format!("the text is rejected with `{}` while the equivalent direct call succeeds with {}", trunc(ea, 300), trunc(&direct_dbg(db), 200))), replay.clone());
                 // a multi-row INSERT is executed row by row by the router, so the text side may have
                 // applied a prefix of the rows before it failed: the twins cannot be re-synchronised
                 if matches!(&op, Op::Insert { rows, .. } if rows.len() > 1) {
@@ -2802,7 +2922,7 @@ fn equiv_case(case_seed: u64, rep: &mut Report) {
                 }
             }
             (Ok(qa), Err(eb)) => {
-                rep.violation(
+                viol(rep, 
                     format!("equivalence:text-succeeds-direct-fails:{}", fam),
                     ctx(format!("the text succeeds with {} while the equivalent direct call fails with `{}`", trunc(&format!("{:?}", qa), 300), trunc(eb, 300))),
                     replay.clone(),
@@ -2814,7 +2934,7 @@ fn equiv_case(case_seed: u64, rep: &mut Report) {
     match guard(|| final_states_agree(&a, &b, &all_tables)) {
         Ok(Ok(())) => {}
         Ok(Err((engine, d))) => {
-            rep.violation(format!("equivalence:final-state-differs:{}", engine), format!("after {:?}: {}", trace, trunc(&d, 1500)), replay.clone());
+            viol(rep, format!("equivalence:final-state-differs:{}", engine), format!("after {:?}: {}", trace, trunc(&d, 1500)), replay.clone());
             return;
         }
         Err(p) => {
@@ -2848,6 +2968,7 @@ fn replay_case(args: &Args, rp: &J, total: &mut Report) {
             let (bs, from, idx) = (rp["batch_seed"].as_u64().unwrap_or(0), rp["from"].as_u64().unwrap_or(0), rp["index"].as_u64().unwrap_or(0));
             fuzz_batch(scratch.path(), "replay", bs, from, idx - from + 1, Some(idx), total);
         }
+        "text" => text_run(scratch.path(), rp["text"].as_str().unwrap_or(""), total),
         other => total.inconclusive(&format!("unknown replay part {:?}", other)),
     }
 }
@@ -2880,13 +3001,13 @@ fn main() {
             let rep = par_cases(args.threads, args.seed, n_small, args.budget(120, 600), |i, _s, r| tree_case_small(i, r));
             total.count("small_trees_complete", (rep.counters.get("budget_stops").copied().unwrap_or(0) == 0) as u64);
             total.merge(rep);
-            let n = args.extra_u64("trees", args.by_tier(50_000, 1_500_000));
+            let n = args.extra_u64("trees", args.by_tier(120_000, 2_500_000));
             let rep = par_cases(args.threads, args.seed ^ 0x7EE, n, args.budget(40, 300), |_i, s, r| tree_case_random(s, r));
             total.merge(rep);
         }
         // ---- equivalence (in process)
         if want("equiv") {
-            let n = args.extra_u64("programs", args.by_tier(160, 6_000));
+            let n = args.extra_u64("programs", args.by_tier(500, 10_000));
             let rep = par_cases(args.threads, args.seed ^ 0xE9, n, args.budget(60, 420), |_i, s, r| equiv_case(s, r));
             total.merge(rep);
         }
@@ -2896,6 +3017,16 @@ fn main() {
         }
     }
 
+    {
+        // witnesses: all signatures, WITNESSES_PER_SIGNATURE each (par_cases' own entries stay)
+        let c = COLLECT.lock().unwrap_or_else(|e| e.into_inner());
+        for (_, vs) in c.iter() {
+            for v in vs {
+                total.violations.push(v.clone());
+            }
+        }
+        total.count("distinct_violation_signatures", c.len() as u64);
+    }
     let floors: Vec<(&'static str, u64)> = if args.replay.is_some() || args.extra.contains_key("part") {
         vec![]
     } else {
@@ -2915,7 +3046,7 @@ fn main() {
     };
     let meta = Meta {
         property: "C15",
-        rule: "totality: one evaluation = one input string (<= 4096 bytes: random bytes, printable ASCII, unicode incl. characters whose uppercase has another length, keyword/operator soup, 1-4 token-level mutations of 600 statements taken from the parser's own tests, nesting of 19 kinds up to the depth that fits in 4 KiB) pushed through tokenize, parse_expr, parse, parse_all (each twice) and, when execution stays inside the engines, QueryRouter::execute_parsed and ::execute, on a 2 MiB-stack thread of a child process; distinct by hash of the text, non-trivial if it lexes to >= 2 tokens. precedence: one evaluation = one expression tree (all 722 two-operator, 180 unary/binary and 34 295 three-operator trees; random trees of height 2-8 over all 19 binary and 3 unary operators plus IS NULL/IN/BETWEEN/LIKE/calls/CASE/arrays/tuples) whose minimal-parentheses and fully-parenthesised prints both parse back to it through parse_expr and through the statement parser in SELECT-item, WHERE and UPDATE-SET position; distinct by hash of the minimal print, non-trivial with >= 2 operators. equivalence: one evaluation = one completed program of 20-49 generated statements (CREATE/DROP TABLE, CREATE INDEX, SHOW TABLES, INSERT, SELECT with projection/ORDER BY/LIMIT/OFFSET, UPDATE, DELETE, NODE/EDGE CREATE/GET/DELETE, NEIGHBORS, PATH, EMBED STORE/GET/DELETE, SIMILAR) run as text on one router and as direct calls on a twin, compared after every statement and on the final engine states; distinct by hash of the statement texts.",
+        rule: "totality: one evaluation = one input string (<= 4096 bytes: random bytes, printable ASCII, unicode incl. characters whose uppercase has another length, keyword/operator soup, 1-4 token-level mutations of ~870 statements taken from the parser's and the router's own tests, nesting of 19 kinds up to the depth that fits in 4 KiB) pushed through tokenize, parse_expr, parse, parse_all (each twice) and, when execution stays inside the engines, QueryRouter::execute_parsed and ::execute, on a 2 MiB-stack thread of a child process; distinct by hash of the text, non-trivial if it lexes to >= 2 tokens. precedence: one evaluation = one expression tree (all 722 two-operator, 180 unary/binary and 34 295 three-operator trees; random trees of height 2-8 over all 19 binary and 3 unary operators plus IS NULL/IN/BETWEEN/LIKE/calls/CASE/arrays/tuples) whose minimal-parentheses and fully-parenthesised prints both parse back to it through parse_expr and through the statement parser in SELECT-item, WHERE and UPDATE-SET position; distinct by hash of the minimal print, non-trivial with >= 2 operators. equivalence: one evaluation = one completed program of 20-49 generated statements (CREATE/DROP TABLE, CREATE INDEX, SHOW TABLES, INSERT, SELECT with projection/ORDER BY/LIMIT/OFFSET, UPDATE, DELETE, NODE/EDGE CREATE/GET/DELETE, NEIGHBORS, PATH, EMBED STORE/GET/DELETE, SIMILAR) run as text on one router and as direct calls on a twin, compared after every statement and on the final engine states; distinct by hash of the statement texts.",
         assumptions: vec![
             "the documented table is expr.rs:7-18 / the book's Binding Power Table: OR < AND < comparison < | < ^ < & < shifts < + - || < * / % < unary NOT - ~ < postfix, binary operators left-associative; where it is silent (a compound operand of IS NULL / IN / BETWEEN / LIKE, bounds of BETWEEN, LIKE pattern) the printer always writes parentheses".into(),
             "expr.rs answering TooDeep (its documented nesting limit of 64) is an error, not a regrouping; such prints are skipped and counted".into(),
@@ -3542,4 +3673,269 @@ const CORPUS: &[&str] = &[
     "VAULT SET 'key1' 'value1'",
     "cache init",
     "show tables",
+    // command strings of query_router's own tests for the legacy `execute` splitter
+    "-- this is a comment",
+    "AGGREGATE EDGE PROPERTY prop COUNT",
+    "AGGREGATE EDGE PROPERTY score MIN",
+    "AGGREGATE EDGE PROPERTY value MAX",
+    "AGGREGATE EDGE PROPERTY weight AVG",
+    "AGGREGATE NODE PROPERTY age AVG",
+    "AGGREGATE NODE PROPERTY age SUM",
+    "BATCH CREATE NODES [{labels: [Person], name: 'Alice'}, {labels: [Person], name: 'Bob'}]",
+    "BEGIN",
+    "BUILD HNSW",
+    "COMMIT",
+    "CONSTRAINT ADD person name UNIQUE",
+    "CONSTRAINT CREATE email_unique ON NODE PROPERTY email UNIQUE",
+    "CONSTRAINT DROP email_unique",
+    "CONSTRAINT GET email_unique",
+    "CONSTRAINT LIST",
+    "CONSTRAINT REMOVE person name",
+    "CREATE INDEX indexed col",
+    "CREATE INDEX indexed name",
+    "CREATE INDEX t",
+    "CREATE SOMETHING bad",
+    "CREATE TABLE agg (category:string, value:int)",
+    "CREATE TABLE bad (invalid)",
+    "CREATE TABLE bad (x:unknowntype)",
+    "CREATE TABLE bad x:int",
+    "DELETE",
+    "DELETE del",
+    "DELETE deltest WHERE id = 2",
+    "DELETE missing_table",
+    "DELETE temp WHERE id = 1",
+    "DELETE temp WHERE id=1",
+    "DELETE users WHERE id = 1",
+    "DESCRIBE missing_table",
+    "DROP INDEX indexed col",
+    "DROP INDEX indexed name",
+    "DROP INDEX t",
+    "DROP SOMETHING bad",
+    "DROP TABLE dropme",
+    "DROP TABLE missing_table",
+    "DROP TABLE to_drop",
+    "DROP TABLE todrop",
+    "EDGE",
+    "EDGE CREATE",
+    "EDGE CREATE 1 2 label",
+    "EDGE CREATE notanumber -> 1",
+    "EDGE GET",
+    "EDGE GET notanumber",
+    "EDGE UNKNOWN 1",
+    "EMBED",
+    "EMBED a [1.0, 0.0]",
+    "EMBED a [1.0]",
+    "EMBED b [0.0, 1.0]",
+    "EMBED b [2.0]",
+    "EMBED bad [not,a,vector]",
+    "EMBED coll_vec1 [1.0, 0.0, 0.0]",
+    "EMBED cos_a [1.0, 0.0]",
+    "EMBED cos_b [0.0, 1.0]",
+    "EMBED cos_c [0.707, 0.707]",
+    "EMBED doc1 [1.0, 0.0, 0.0]",
+    "EMBED doc2 [0.0, 1.0, 0.0]",
+    "EMBED doc3 [0.9, 0.1, 0.0]",
+    "EMBED dot_a [1.0, 0.0]",
+    "EMBED dot_b [2.0, 0.0]",
+    "EMBED dot_c [0.5, 0.0]",
+    "EMBED emptykey []",
+    "EMBED euc_a [1.0, 0.0]",
+    "EMBED euc_b [2.0, 0.0]",
+    "EMBED euc_c [10.0, 0.0]",
+    "EMBED h1 [1.0, 0.0, 0.0]",
+    "EMBED h2 [0.0, 1.0, 0.0]",
+    "EMBED hnsw_a [1.0, 0.0]",
+    "EMBED hnsw_b [2.0, 0.0]",
+    "EMBED item1 [1.0, 0.0, 0.0]",
+    "EMBED item2 [0.9, 0.1, 0.0]",
+    "EMBED key []",
+    "EMBED key [not, valid]",
+    "EMBED meta_vec [1.0, 0.0]",
+    "EMBED mykey [1.0, 2.0]",
+    "EMBED post [1.0, 0.0, 0.0]",
+    "EMBED synckey [1.0, 2.0]",
+    "EMBED test [1.0]",
+    "EMBED testkey [1.0, 2.0, 3.0]",
+    "EMBED todelete [1.0, 2.0]",
+    "EMBED v [1.0, 2.0]",
+    "EMBED v [1.0]",
+    "EMBED v1 [1.0, 0.0, 0.0]",
+    "EMBED v1 [1.0, 0.0]",
+    "EMBED v2 [0.0, 1.0, 0.0]",
+    "EMBED v2 [0.0, 1.0]",
+    "EMBED v3 [0.0, 0.0, 1.0]",
+    "EMBED vec1 [1.0, 0.0, 0.0]",
+    "EMBED vec1 [1.0, 0.0]",
+    "EMBED vec1 [1.0, 2.0, 3.0]",
+    "EMBED vec2 [0.0, 1.0, 0.0]",
+    "EMBED vec2 [0.9, 0.1, 0.0]",
+    "EMBED vec3 [0.0, 1.0, 0.0]",
+    "EMBED vec4 [0.0, 0.0, 1.0]",
+    "EMBED x [1.0]",
+    "EMBED zero_far [10.0, 0.0]",
+    "EMBED zero_origin [0.0, 0.0]",
+    "EMBED zero_unit [1.0, 0.0]",
+    "ENTITY BATCH CREATE [{key: 'batch:1', name: 'First'}, {key: 'batch:2', name: 'Second'}]",
+    "ENTITY CONNECT 'user:alice' -> 'user:bob' : follows",
+    "ENTITY CREATE 'doc:1' { title: 'Test' } EMBEDDING [0.1, 0.2, 0.3]",
+    "ENTITY CREATE 'user:1' { name: 'Alice', age: '30' }",
+    "ENTITY CREATE 'user:alice' { name: 'Alice' }",
+    "ENTITY CREATE 'user:bob' { name: 'Bob' }",
+    "ENTITY DELETE 'user:1'",
+    "ENTITY GET 'batch:1'",
+    "ENTITY GET 'doc:1'",
+    "ENTITY GET 'user:1'",
+    "ENTITY UPDATE 'user:1' { name: 'Alicia', age: '31' }",
+    "EXPLAIN SELECT explained",
+    "FIND",
+    "FIND EDGES",
+    "FIND EDGES authored",
+    "FIND NODES findtest",
+    "FIND NODES item WHERE x > 5",
+    "FIND NODES post",
+    "FIND ROWS FROM findrows",
+    "FOOBAR xyz",
+    "GRAPH BETWEENNESS CENTRALITY",
+    "GRAPH CLOSENESS CENTRALITY",
+    "GRAPH EIGENVECTOR CENTRALITY",
+    "GRAPH EIGENVECTOR CENTRALITY ITERATIONS 50 TOLERANCE 0.001",
+    "GRAPH INDEX CREATE ON EDGE PROPERTY weight",
+    "GRAPH INDEX CREATE ON EDGE TYPE",
+    "GRAPH INDEX CREATE ON LABEL",
+    "GRAPH INDEX CREATE ON NODE PROPERTY email",
+    "GRAPH LABEL PROPAGATION",
+    "GRAPH LOUVAIN COMMUNITIES",
+    "GRAPH PAGERANK",
+    "GRAPH PAGERANK DAMPING 0.85 ITERATIONS 50",
+    "INSERT",
+    "INSERT INTO missing_table (id) VALUES (1)",
+    "INSERT agg category='A', value=10",
+    "INSERT agg category='A', value=20",
+    "INSERT agg category='B', value=30",
+    "INSERT counted id=1",
+    "INSERT counted id=2",
+    "INSERT data a=1, b=2",
+    "INSERT data a=3, b=4",
+    "INSERT data a=5, b=6",
+    "INSERT del x=1",
+    "INSERT del x=2",
+    "INSERT deltest id=1, name='A'",
+    "INSERT deltest id=2, name='B'",
+    "INSERT deltest id=3, name='C'",
+    "INSERT dropme id=1",
+    "INSERT dups cat='A'",
+    "INSERT dups cat='B'",
+    "INSERT findrows x=1",
+    "INSERT items id=1",
+    "INSERT items id=1, active=true",
+    "INSERT items id=2",
+    "INSERT items id=2, active=false",
+    "INSERT left_t id=1, val='a'",
+    "INSERT left_t id=2, val='b'",
+    "INSERT logic a=1, b=1",
+    "INSERT logic a=1, b=2",
+    "INSERT logic a=2, b=1",
+    "INSERT multi a=1, b=1",
+    "INSERT multi a=1, b=2",
+    "INSERT multi a=2, b=1",
+    "INSERT nulltest id=1, name=NULL",
+    "INSERT nums val=3.14",
+    "INSERT ops id=1, val=10",
+    "INSERT ops id=2, val=20",
+    "INSERT ops id=3, val=30",
+    "INSERT ops x=5",
+    "INSERT ordered id=1, name='C', score=30",
+    "INSERT ordered id=2, name='A', score=10",
+    "INSERT ordered id=3, name='B', score=20",
+    "INSERT products id=1, price=100",
+    "INSERT products id=2, price=200",
+    "INSERT right_t id=1, data='x'",
+    "INSERT right_t id=3, data='y'",
+    "INSERT scores id=1, val=10",
+    "INSERT shared id=1",
+    "INSERT t",
+    "INSERT t flag=FALSE",
+    "INSERT t invalid",
+    "INSERT t s='hello'",
+    "INSERT temp id=1",
+    "INSERT temp id=2",
+    "INSERT temps id=1",
+    "INSERT temps id=2",
+    "INSERT to_drop id=1",
+    "INSERT updtest id=1, status='pending'",
+    "INSERT updtest id=2, status='pending'",
+    "INSERT vals id=1, x=10",
+    "INSERT vals id=2, x=20",
+    "INSERT vals id=3, x=30",
+    "NEIGHBORS",
+    "NEIGHBORS notanumber",
+    "NODE",
+    "NODE CREATE Node",
+    "NODE CREATE Page",
+    "NODE CREATE Person age=20",
+    "NODE CREATE Person age=25",
+    "NODE DELETE",
+    "NODE GET",
+    "NODE GET 99999",
+    "NODE GET notanumber",
+    "NODE UNKNOWN label",
+    "PATH 1",
+    "PATH 1 -> notanumber",
+    "PATH 99999 -> 99998",
+    "PATH notanumber -> 1",
+    "SELECT",
+    "SELECT * FROM missing_table",
+    "SELECT AVG(value) FROM agg",
+    "SELECT COUNT(*) FROM agg",
+    "SELECT COUNT(*) FROM counted",
+    "SELECT DISTINCT cat FROM dups",
+    "SELECT FROM",
+    "SELECT MAX(value) FROM agg",
+    "SELECT MIN(value) FROM agg",
+    "SELECT SUM(value) FROM agg",
+    "SELECT data WHERE a = 1 OR a = 5",
+    "SELECT data WHERE a > 2 AND b < 6",
+    "SELECT deltest",
+    "SELECT dropme",
+    "SELECT flags",
+    "SELECT items WHERE qty > 15",
+    "SELECT logic WHERE a = 1 AND b = 1",
+    "SELECT logic WHERE a = 1 OR b = 1",
+    "SELECT nonexistent",
+    "SELECT nullable",
+    "SELECT nulltest",
+    "SELECT nums",
+    "SELECT ops WHERE val != 20",
+    "SELECT ops WHERE val < 25",
+    "SELECT ops WHERE val <= 20",
+    "SELECT ops WHERE val >= 20",
+    "SELECT products",
+    "SELECT shared",
+    "SELECT t",
+    "SELECT t WHERE invalid",
+    "SELECT updtest WHERE id = 1",
+    "SELECT users",
+    "SELECT users WHERE id = 1",
+    "SELECT vals",
+    "SHOW TABLES",
+    "SHOW VECTOR INDEX",
+    "SIMILAR",
+    "SIMILAR [0.9, 0.1, 0.0] TOP 1",
+    "SIMILAR [1.0, 0.0, 0.0] IN test_coll TOP 5",
+    "SIMILAR [1.0, 0.0, 0.0] TOP 2",
+    "SIMILAR [1.0, 0.0] TOP 1",
+    "SIMILAR a TOP 2",
+    "SIMILAR doc1 TOP 2",
+    "SIMILAR nonexistent TOP 5",
+    "SIMILAR v TOP notanumber",
+    "SIMILAR vec1 TOP 3",
+    "UNKNOWN something",
+    "UPDATE missing_table SET val = 1",
+    "UPDATE t SET x=99",
+    "UPDATE t x=2",
+    "UPDATE updtest SET status='done' WHERE id = 1",
+    "VECTOR COLLECTION ADD test_coll coll_vec1",
+    "VECTOR COLLECTION CREATE test_coll",
+    "VECTOR META GET meta_vec",
+    "VECTOR META SET meta_vec category='test'",
 ];
